@@ -146,3 +146,43 @@ class CollectionGetItem(Contract):
 
     def frame_ok(self, I, inp, obj, name):
         return False
+
+
+@register
+class CollectionMerge(Contract):
+    """merge(): the merged collection holds the rules and filters of every collection in order, the errors of every collection, and
+    references are resolved at merge time unless the caller switches that off (a reference to a missing rule is a load-time error on the
+    merge path too)"""
+    id = "C09.SigmaCollection.merge"
+    target = "sigma.collection:SigmaCollection.merge"
+    props = ("C09",)
+    cases = ("default", "off", "on")
+    assumed = ["the SigmaCollection constructor is abstract here (C09.SigmaCollection.resolve_rule_references covers the resolution itself)"]
+
+    def setup(self, E):
+        E.summaries["sigma.collection:SigmaCollection"] = lambda I, so, a, k: SObj("Built", {"a": list(a), "k": dict(k)})
+
+    def args(self, I, case):
+        C = I.E.index.lookup("sigma.collection:SigmaCollection")
+        mk = lambda t: SObj("R", {}, ghost={"n": t})
+        cols = [SObj(C, {"rules": [mk("r0"), mk("r1")], "filters": [mk("f0")], "errors": [mk("e0")]}), SObj(C, {"rules": [], "filters": [], "errors": []}),
+                SObj(C, {"rules": [mk("r2")], "filters": [], "errors": [mk("e1"), mk("e2")]})]
+        args = [cols] + ([] if case == "default" else [case == "on"])
+        return {"self": ClassRef(C), "args": args, "cols": cols, "case": case}
+
+    def post(self, I, inp, r):
+        c = I.ctx
+        ok = isinstance(r, SObj) and r.cls == "Built" and not r.fields["a"]
+        c.require(ok, "the merged collection is built by the constructor with keyword arguments")
+        if ok:
+            k = r.fields["k"]
+            want_rules = [x for col in inp["cols"] for x in col.fields["rules"] + col.fields["filters"]]
+            want_errs = [x for col in inp["cols"] for x in col.fields["errors"]]
+            got = k.get("init_rules")
+            c.require(isinstance(got, list) and len(got) == len(want_rules) and all(a is b for a, b in zip(got, want_rules)), "rules and filters of every collection, in order")
+            ge = k.get("errors")
+            c.require(isinstance(ge, list) and len(ge) == len(want_errs) and all(a is b for a, b in zip(ge, want_errs)), "errors of every collection, in order")
+            c.require(ops.truth(I, k.get("resolve_references", True)) is (inp["case"] != "off"), "references are resolved at merge time unless switched off explicitly")
+
+    def frame_ok(self, I, inp, obj, name):
+        return False
